@@ -45,6 +45,24 @@ func startScreen(ti *terminfo.Terminfo, w, h int, onWrite func([]byte)) (*liveSc
 // resize events are dropped.  A generous watchdog makes the result
 // inconclusive (ok=false), never a verdict.
 func (l *liveScreen) pollUntilRune(sentinel rune) (evs []NEv, ok bool) {
+	return l.startPoll(sentinel)()
+}
+
+// feedOrDone feeds b to the tty unless done fires first (returns false then).
+func (l *liveScreen) feedOrDone(b []byte, done <-chan struct{}) bool {
+	select {
+	case l.tty.FeedC() <- append([]byte(nil), b...):
+		return true
+	case <-done:
+		return false
+	case <-time.After(20 * time.Second):
+		return false
+	}
+}
+
+// startPoll starts the poller now (so that feeding cannot back up against a
+// full event queue) and returns the function that waits for its result.
+func (l *liveScreen) startPoll(sentinel rune) func() ([]NEv, bool) {
 	type res struct {
 		evs []NEv
 		ok  bool
@@ -69,11 +87,14 @@ func (l *liveScreen) pollUntilRune(sentinel rune) (evs []NEv, ok bool) {
 			out = append(out, n)
 		}
 	}()
-	select {
-	case rr := <-ch:
-		return rr.evs, rr.ok
-	case <-time.After(20 * time.Second):
-		return nil, false
+	return func() ([]NEv, bool) {
+		select {
+		case rr := <-ch:
+			ch <- rr // keep it available for a second call
+			return rr.evs, rr.ok
+		case <-time.After(20 * time.Second):
+			return nil, false
+		}
 	}
 }
 
